@@ -259,9 +259,9 @@ func (aw *AW) gen(wt []int) (Step, bool) {
 	}
 	switch r.Pick(ww) {
 	case 0:
-		return Step{K: "send", A: 0, B: 1 + r.Intn(4)}, true
+		return Step{K: "send", A: 0, B: 1 + r.Intn(4), C: awAlphabet(r)}, true
 	case 1:
-		return Step{K: "send", A: 1, B: 1 + r.Intn(4)}, true
+		return Step{K: "send", A: 1, B: 1 + r.Intn(4), C: awAlphabet(r)}, true
 	case 2:
 		a := link()
 		return Step{K: "deliver", A: a, B: 1 - a, C: 0}, true
@@ -319,4 +319,12 @@ func actedEvents(r *CallResult) []string {
 		}
 	}
 	return out
+}
+
+// awAlphabet: mostly plain texts; sometimes one with a NUL byte and TLV-looking bytes behind it.
+func awAlphabet(r *PRNG) int {
+	if r.Chance(1, 12) {
+		return 6
+	}
+	return 0
 }
